@@ -887,6 +887,102 @@ class ValueNode(SyntaxNodeBase):
             )
         return self.value != self._og_value
 
+    _MAX_PRECISION = 17
+    """
+    The number of significant digits that is always enough to tell two doubles apart.
+    """
+
+    def _float_styles(self):
+        """
+        The ways to write a float, in the order they are tried.
+
+        The first one is the style reverse engineered from the original token
+        (or python general for a new value). The others have more and more digits.
+        They are only used when the value read back from the text would
+        not be the value of this node.
+
+        :returns: a generator of tuples of the presentation type ("g", "e", or "f") and the precision.
+        :rtype: generator
+        """
+        precision = self._formatter["precision"]
+        most = self._MAX_PRECISION
+        # default to python general if new value
+        if not self._is_reversed:
+            yield from (("g", p) for p in range(precision, max(precision, most) + 1))
+        elif self._formatter["is_scientific"]:
+            yield from (("e", p) for p in range(precision, max(precision, most - 1) + 1))
+        elif self._formatter["as_int"]:
+            # python's default precision for general
+            yield from (("g", p) for p in range(6, most + 1))
+        else:
+            yield from (("f", p) for p in range(precision, max(precision, most) + 1))
+            # too small for fixed point notation
+            yield from (("g", p) for p in range(1, most + 1))
+
+    def _format_float_as(self, value, style, precision):
+        """
+        Writes the float in the given style with the given precision.
+
+        :param value: the value to write
+        :type value: float
+        :param style: the presentation type: "g", "e", or "f".
+        :type style: str
+        :param precision: the precision of the presentation type.
+        :type precision: int
+        :rtype: str
+        """
+        formatter = self._formatter
+        if style == "e":
+            temp = "{value:0={sign}{zero_padding}.{precision}e}".format(
+                value=value,
+                sign=formatter["sign"],
+                zero_padding=formatter["zero_padding"],
+                precision=precision,
+            )
+            temp = temp.replace("e", formatter["divider"])
+            # a positive value written for a negative token starts with a blank (sign " ")
+            temp_match = self._SCIENTIFIC_FINDER.search(temp)
+            exponent = temp_match.group("exponent")
+            start, end = temp_match.span("exponent")
+            new_exp_temp = "{value:0={zero_padding}d}".format(
+                value=int(exponent),
+                zero_padding=formatter["exponent_zero_pad"],
+            )
+            new_exp = "{temp:<{value_length}}".format(
+                temp=new_exp_temp, value_length=formatter["exponent_length"]
+            )
+            return temp[0:start] + new_exp + temp[end:]
+        return "{value:0={sign}0{zero_padding}.{precision}{style}}".format(
+            value=value,
+            sign=formatter["sign"],
+            zero_padding=formatter["zero_padding"],
+            precision=precision,
+            style=style,
+        )
+
+    def _format_float(self, value):
+        """
+        Writes the float so that MCNP reads it back as this value.
+
+        The style of the original token is kept. Its precision is kept as well if
+        the text is then read back as the value (within the tolerance that decides if a value has changed).
+        Otherwise digits are added until it is.
+
+        :param value: the value to write
+        :type value: float
+        :rtype: str
+        """
+        for style, precision in self._float_styles():
+            temp = self._format_float_as(value, style, precision)
+            try:
+                if math.isclose(
+                    fortran_float(temp), value, rel_tol=rel_tol, abs_tol=abs_tol
+                ):
+                    break
+            except ValueError:
+                pass
+        return temp
+
     def format(self):
         if not self._value_changed:
             return f"{self._token}{self.padding.format() if self.padding else ''}"
@@ -907,36 +1003,7 @@ class ValueNode(SyntaxNodeBase):
                 value=round(value), **self._formatter
             )
         elif self._type == float:
-            # default to python general if new value
-            if not self._is_reversed:
-                temp = "{value:0={sign}{zero_padding}.{precision}g}".format(
-                    value=value, **self._formatter
-                )
-            elif self._formatter["is_scientific"]:
-                temp = "{value:0={sign}{zero_padding}.{precision}e}".format(
-                    value=value, **self._formatter
-                )
-                temp = temp.replace("e", self._formatter["divider"])
-                # a positive value written for a negative token starts with a blank (sign " ")
-                temp_match = self._SCIENTIFIC_FINDER.search(temp)
-                exponent = temp_match.group("exponent")
-                start, end = temp_match.span("exponent")
-                new_exp_temp = "{value:0={zero_padding}d}".format(
-                    value=int(exponent),
-                    zero_padding=self._formatter["exponent_zero_pad"],
-                )
-                new_exp = "{temp:<{value_length}}".format(
-                    temp=new_exp_temp, value_length=self._formatter["exponent_length"]
-                )
-                temp = temp[0:start] + new_exp + temp[end:]
-            elif self._formatter["as_int"]:
-                temp = "{value:0={sign}0{zero_padding}g}".format(
-                    value=value, **self._formatter
-                )
-            else:
-                temp = "{value:0={sign}0{zero_padding}.{precision}f}".format(
-                    value=value, **self._formatter
-                )
+            temp = self._format_float(value)
         else:
             temp = str(value)
         if self.padding:
